@@ -422,6 +422,132 @@ fn mixed_cell(point: (&'static str, bool, u32), pread: &str, sread: &str, fresh_
     res
 }
 
+// ---------------------------------------------------------------------------------------------
+// C07 / C08: single-operation read helpers of the transactional keyspaces while a commit is parked
+
+const TX_POINTS: &[(&str, u32)] = &[("batch.journaled", 0), ("batch.item_applied", 0), ("batch.item_applied", 1), ("batch.before_publish", 0)];
+const TX_HELPERS: &[&str] = &["get", "contains_key", "size_of", "first_key_value", "last_key_value"];
+
+/// A transaction that rewrites keys "a" and "z" (the first and the last key) of one keyspace and a key of a
+/// second keyspace is parked inside its commit; the keyspace-level read helpers must show none of it (a
+/// committed transaction takes effect all at once), and all of it after the commit returned.
+fn tx_helper_cell(point: (&'static str, u32), helper: &str, optimistic: bool, stats: &mut Counts) -> Result<Option<Deviation>, Deviation> {
+    let dir = fresh_dir("dir");
+    let e = |w: &str, x: fjall::Error| Deviation::new("unexpected-error:director", format!("{w}: {x:?}"));
+    // helper results as (sees the new value of "a", sees the new value of "z")
+    fn read(helper: &str, get: &dyn Fn(&str) -> Result<Option<Vec<u8>>, fjall::Error>, first: Option<(Vec<u8>, Vec<u8>)>, last: Option<(Vec<u8>, Vec<u8>)>) -> Result<(bool, bool), fjall::Error> {
+        let is_new = |v: Option<Vec<u8>>| v.as_deref() == Some(&b"new"[..]);
+        Ok(match helper {
+            "first_key_value" => (first.is_some_and(|(k, v)| k == b"a" && v == b"new"), false),
+            "last_key_value" => (false, last.is_some_and(|(k, v)| k == b"z" && v == b"new")),
+            _ => (is_new(get("a")?), is_new(get("z")?)),
+        })
+    }
+    let res = (|| -> Result<Option<Deviation>, Deviation> {
+        let cellname = format!("front={} point={}#{} helper={helper}", if optimistic { "optimistic" } else { "single-writer" }, point.0, point.1);
+        let kv = |g: Option<fjall::Guard>| -> Result<Option<(Vec<u8>, Vec<u8>)>, fjall::Error> {
+            match g {
+                Some(g) => {
+                    let (k, v) = g.into_inner()?;
+                    Ok(Some((k.to_vec(), v.to_vec())))
+                }
+                None => Ok(None),
+            }
+        };
+        macro_rules! run {
+            ($db:expr, $a:expr, $b:expr, $commit:expr) => {{
+                for k in ["a", "m", "z"] {
+                    $a.insert(k, "old").map_err(|x| e("init", x))?;
+                }
+                $b.insert("k", "old").map_err(|x| e("init", x))?;
+                hooks::arm(point.0, "writer", point.1);
+                let writer = std::thread::Builder::new().name("writer".into()).spawn($commit).expect("spawn");
+                let Some(seqno) = hooks::wait_parked(point.0, 5_000) else {
+                    hooks::release(point.0);
+                    let _ = writer.join();
+                    return Err(Deviation::new("inconclusive:gate", format!("committer did not reach {}", point.0)));
+                };
+                let helper_read = || -> Result<(bool, bool), fjall::Error> {
+                    let a2 = &$a;
+                    let get = |k: &str| -> Result<Option<Vec<u8>>, fjall::Error> {
+                        match helper {
+                            "contains_key" => Ok(if a2.contains_key(k)? { a2.get(k)?.map(|v| v.to_vec()) } else { None }),
+                            "size_of" => Ok(if a2.size_of(k)? == Some(3) { a2.get(k)?.map(|v| v.to_vec()) } else { None }),
+                            _ => Ok(a2.get(k)?.map(|v| v.to_vec())),
+                        }
+                    };
+                    read(helper, &get, kv(a2.first_key_value())?, kv(a2.last_key_value())?)
+                };
+                let during = helper_read().map_err(|x| e("helper read", x))?;
+                hooks::release(point.0);
+                match writer.join() {
+                    Ok(Ok(())) => {}
+                    Ok(Err(x)) => return Err(Deviation::new("unexpected-error:director", format!("commit: {x}"))),
+                    Err(_) => return Err(Deviation::new("panic", "committer panicked")),
+                }
+                let after = helper_read().map_err(|x| e("helper read", x))?;
+                hooks::clear_gates();
+                stats.inc("director.cells");
+                let want_after = match helper {
+                    "first_key_value" => (true, false),
+                    "last_key_value" => (false, true),
+                    _ => (true, true),
+                };
+                if after != want_after {
+                    return Ok(Some(Deviation::new(
+                        "director:write-not-visible-after-return",
+                        format!("{cellname}: after the commit returned the helper sees new values of (a, z) = {after:?}"),
+                    )));
+                }
+                if during.0 || during.1 {
+                    return Ok(Some(Deviation::new(
+                        "director:uncommitted-transaction-visible-to-helper",
+                        format!(
+                            "{cellname}: while the transaction's commit (batch seqno {seqno}) is parked before its publish, the keyspace-level {helper} already shows its writes (a new: {}, z new: {}): the commit does not take effect all at once for this reader",
+                            during.0, during.1
+                        ),
+                    )));
+                }
+                stats.inc("director.cells_held");
+                let _ = &$db;
+                Ok(None)
+            }};
+        }
+        if optimistic {
+            let db = fjall::OptimisticTxDatabase::builder(&dir).worker_threads_unchecked(0).open().map_err(|x| e("open", x))?;
+            let a = db.keyspace("a", || KeyspaceCreateOptions::default().max_memtable_size(64 << 20)).map_err(|x| e("ks", x))?;
+            let b = db.keyspace("b", || KeyspaceCreateOptions::default().max_memtable_size(64 << 20)).map_err(|x| e("ks", x))?;
+            let (db2, a2, b2) = (db.clone(), a.clone(), b.clone());
+            run!(db, a, b, move || -> Result<(), String> {
+                let mut tx = db2.write_tx().map_err(|e| format!("{e:?}"))?;
+                tx.insert(&a2, "a", "new");
+                tx.insert(&a2, "z", "new");
+                tx.insert(&b2, "k", "new");
+                match tx.commit() {
+                    Ok(Ok(())) => Ok(()),
+                    Ok(Err(_)) => Err("conflict".to_string()),
+                    Err(e) => Err(format!("{e:?}")),
+                }
+            })
+        } else {
+            let db = fjall::SingleWriterTxDatabase::builder(&dir).worker_threads_unchecked(0).open().map_err(|x| e("open", x))?;
+            let a = db.keyspace("a", || KeyspaceCreateOptions::default().max_memtable_size(64 << 20)).map_err(|x| e("ks", x))?;
+            let b = db.keyspace("b", || KeyspaceCreateOptions::default().max_memtable_size(64 << 20)).map_err(|x| e("ks", x))?;
+            let (db2, a2, b2) = (db.clone(), a.clone(), b.clone());
+            run!(db, a, b, move || -> Result<(), String> {
+                let mut tx = db2.write_tx();
+                tx.insert(&a2, "a", "new");
+                tx.insert(&a2, "z", "new");
+                tx.insert(&b2, "k", "new");
+                tx.commit().map_err(|e| format!("{e:?}"))
+            })
+        }
+    })();
+    hooks::clear_gates();
+    rm_rf(&dir);
+    res
+}
+
 pub fn main(args: &Args) -> i32 {
     let seed = args.u64("seed", 1);
     let property = args.str("property", "C06");
@@ -434,12 +560,16 @@ pub fn main(args: &Args) -> i32 {
     let mut idx = 0u64;
     let mut known_reported = 0;
     let mixed = property == "C14";
-    let (second, third): (Vec<&str>, Vec<String>) = if mixed {
+    let txh = property == "C07" || property == "C08";
+    let (second, third): (Vec<&str>, Vec<String>) = if txh {
+        (TX_HELPERS.to_vec(), vec![if property == "C07" { "optimistic".to_string() } else { "single-writer".to_string() }])
+    } else if mixed {
         (POINT_READS.to_vec(), SCAN_READS.iter().flat_map(|s| [format!("{s}+existing"), format!("{s}+fresh")]).collect())
     } else {
         (INTRUDERS.to_vec(), VIEWS.iter().map(|s| (*s).to_string()).collect())
     };
-    for p in POINTS {
+    let points: Vec<(&'static str, bool, u32)> = if txh { TX_POINTS.iter().map(|p| (p.0, true, p.1)).collect() } else { POINTS.to_vec() };
+    for p in &points {
         for i in &second {
             for v in &third {
                 idx += 1;
@@ -458,7 +588,9 @@ pub fn main(args: &Args) -> i32 {
                 crate::watchdog::begin_case(idx);
                 let mut stats = Counts::default();
                 let res = catch_unwind(AssertUnwindSafe(|| {
-                    if mixed {
+                    if txh {
+                        tx_helper_cell((p.0, p.2), i, v == "optimistic", &mut stats)
+                    } else if mixed {
                         let (sread, variant) = v.split_once('+').unwrap_or((v.as_str(), "existing"));
                         mixed_cell(*p, i, sread, variant == "fresh", &mut stats)
                     } else {
@@ -534,7 +666,7 @@ pub fn main(args: &Args) -> i32 {
                 "matrix of (pause point of the write path) x (intruder that changes a tree version without the journal lock) x (view kind)"
             }),
         ),
-        ("points", J::arr_s(POINTS.iter().map(|p| format!("{}#{}", p.0, p.2)))),
+        ("points", J::arr_s(points.iter().map(|p| format!("{}#{}", p.0, p.2)))),
         (if mixed { "point_reads" } else { "intruders" }, J::arr_s(second.iter().map(|s| (*s).to_string()))),
         (if mixed { "scans" } else { "views" }, J::arr_s(third.iter().cloned())),
     ]));
